@@ -1526,7 +1526,13 @@ std::string OutputManager::render_formatted_string(
         i = pos;
 
         if (arg_index >= total_args) {
+            // no argument left for this conversion: it is plain text and
+            // is written as it stands, flags, width and length included
             result += '%';
+            result += flags;
+            result += width;
+            result += precision;
+            result += length_mod;
             result += spec;
             continue;
         }
